@@ -7,7 +7,8 @@ from mc import phys, scope
 LEVEL = 'model_checking'
 X64 = True
 RULE = ('conservative generator models (no damping, limits or actuators; '
-        'joint springs on half of them; exact matrix inverse; all root kinds; '
+        'joint springs on half and rotor armature on a third of them; exact '
+        'matrix inverse; all root kinds; '
         '1-3 links over all shapes x link-type strings) x 8 initial states '
         '(tensor-grid poses, qd in unit vectors and seeded |qd|<=1) x step '
         'sizes dt, dt/2, dt/4 (dt=1e-3) over a fixed horizon: every run is a '
@@ -39,7 +40,9 @@ def _models(tier, seed):
   for mi, s in enumerate(specs):
     rng = scope.rng_for(seed, 'c12', mi)
     for l in s['links']:
-      l['passive'] = [dict(damping=0.0, armature=0.0,
+      l['passive'] = [dict(damping=0.0,
+                           armature=float(rng.uniform(0.05, 0.4)) if mi % 3 == 1
+                           else 0.0,
                            stiffness=float(rng.uniform(2, 20)) if mi % 2 else
                            0.0) for _ in l['passive']]
       l['range'] = [None] * len(l['range'])
